@@ -350,9 +350,9 @@ func TestC25(t *testing.T) {
 
 	// statement: signed = everything except Badge and Sig
 	sessionExempt := map[string]bool{"Badge": true, "Sig": true}
-	sessionFieldHit := map[string]int{}    // signed top-level field -> mutations that were rejected
-	replyMustReject := map[string]int{}    // Reply.Data, Reply.Metadata, Request.RelayData.<field != Salt>
-	replyMustAccept := map[string]int{}    // Request.RelayData.Salt, unsigned reply fields, Request.RelaySession
+	sessionFieldHit := map[string]int{} // signed top-level field -> mutations that were rejected
+	replyMustReject := map[string]int{} // Reply.Data, Reply.Metadata, Request.RelayData.<field != Salt>
+	replyMustAccept := map[string]int{} // Request.RelayData.Salt, unsigned reply fields, Request.RelaySession
 	unhandledAll := map[string]bool{}
 	untouchedSessions, untouchedReplies, badgeAccepted, mutationChecks := 0, 0, 0, 0
 
@@ -589,6 +589,33 @@ func TestC25(t *testing.T) {
 			md = append(md, pairingtypes.Metadata{Name: e.Name}, pairingtypes.Metadata{Value: e.Value})
 			m.Metadata = append(md, m.Metadata[j+1:]...)
 			check("Reply.Metadata:split-entry", fmt.Sprintf("entry %d {name,value} split into {name,\"\"},{\"\",value}", j), cloneRequest(consumerReq), m, true, "Reply.Metadata(reframed)")
+		}
+		if len(signedReply.Metadata) > 0 {
+			// the name / value boundary of one entry moves by one byte (the concatenation name+value stays the same)
+			m := cloneReply(signedReply)
+			j := rng.Intn(len(m.Metadata))
+			e := m.Metadata[j]
+			moved := false
+			if len(e.Name) > 1 && rng.Intn(2) == 0 {
+				m.Metadata[j] = pairingtypes.Metadata{Name: e.Name[:len(e.Name)-1], Value: e.Name[len(e.Name)-1:] + e.Value}
+				moved = true
+			} else if len(e.Value) > 0 {
+				m.Metadata[j] = pairingtypes.Metadata{Name: e.Name + e.Value[:1], Value: e.Value[1:]}
+				moved = true
+			}
+			if moved {
+				check("Reply.Metadata:shift-name-value-boundary", fmt.Sprintf("entry %d %q|%q -> %q|%q", j, e.Name, e.Value, m.Metadata[j].Name, m.Metadata[j].Value), cloneRequest(consumerReq), m, true, "Reply.Metadata(reframed)")
+			}
+		}
+		if len(signedReply.Metadata) > 1 {
+			// two neighbouring entries merged into one: the first value absorbs the second entry's name and value
+			m := cloneReply(signedReply)
+			j := rng.Intn(len(m.Metadata) - 1)
+			a, b := m.Metadata[j], m.Metadata[j+1]
+			md := append([]pairingtypes.Metadata{}, m.Metadata[:j]...)
+			md = append(md, pairingtypes.Metadata{Name: a.Name, Value: a.Value + b.Name + b.Value})
+			m.Metadata = append(md, m.Metadata[j+2:]...)
+			check("Reply.Metadata:merge-entries", fmt.Sprintf("entries %d and %d merged into {%q,%q}", j, j+1, a.Name, a.Value+b.Name+b.Value), cloneRequest(consumerReq), m, true, "Reply.Metadata(reframed)")
 		}
 		if ct := consumerReq.RelayData.ConnectionType; ct != "" {
 			// the reply data is followed directly by the text form of the request data: move the request's first
